@@ -253,6 +253,8 @@ fn emit_rd(sink: &mut Sink, r: &mut Rng, f: &str, input: &[u8], start: usize, ta
 fn emit_rs(sink: &mut Sink, r: &mut Rng, cfg: &str, target: &str, input: &[u8], tag: &str) {
     let o = obs_rs(target, input, chunk_sizes(r));
     sink.case("rs", &[cfg, target, &hexf(input)], &o, &format!("rs-{}:{}:{}", target, tag, class(&o)), input.iter().any(|&b| !plain(b) && b != b'"'));
+    // every literal read into ByteBuf also as a bytes-typed object KEY (op rsk, harness/src/keys.rs)
+    if target == "B" { crate::keys::emit_rsk(sink, r, cfg, input, tag); }
 }
 
 /// one literal (`input[start-1] == '"'`): the three string functions at `start`, and the end-to-end targets
